@@ -40,6 +40,16 @@ type Proxy struct {
 	// methodErrors: requests with these methods are answered by the proxy itself with
 	// the given JSON-RPC error (as a server lacking or refusing the method would)
 	methodErrors map[string]string
+	// tamper, when set, sees every message and may return the messages to forward in its
+	// place (nil: forward the message unchanged)
+	tamper func(dir int, raw json.RawMessage) []json.RawMessage
+}
+
+// SetTamper installs (or removes, with nil) a message rewriting function.
+func (p *Proxy) SetTamper(f func(dir int, raw json.RawMessage) []json.RawMessage) {
+	p.mu.Lock()
+	defer p.mu.Unlock()
+	p.tamper = f
 }
 
 // SetMethodErrors makes the proxy answer requests of the given methods with an error
@@ -226,7 +236,24 @@ func (p *Proxy) pump(idx, dir int, from, to net.Conn, cut func(), stall chan str
 				}
 			}
 		}
+		tamper := p.tamper
 		p.mu.Unlock()
+		if tamper != nil && !stalledNow && fault == nil && reject == "" {
+			if outs := tamper(dir, raw); outs != nil {
+				failed := false
+				for _, o := range outs {
+					if _, err := to.Write(append(append([]byte{}, o...), '\n')); err != nil {
+						failed = true
+						break
+					}
+				}
+				if failed {
+					cut()
+					return
+				}
+				continue
+			}
+		}
 		if reject != "" && !stalledNow && fault == nil {
 			reply, _ := json.Marshal(map[string]interface{}{"id": rejectID, "result": nil, "error": reject})
 			if _, err := from.Write(append(reply, '\n')); err != nil {
